@@ -99,7 +99,8 @@ PROPS = {
     "C15": cluster(["C15"], ["*"], [], component="RN"),
     # C06's node-level theorems are about the node model (self-acknowledgement only after persistence, raft.rs) and about
     # the RawNode model (C06b: release classification): both ties run
-    "C06": cluster(["C06"], ["*"], ["term", "up", "dterm", "dvote", "dlog", "dcommit"], component=["RN", "C07"]),
+    # … and "restart from its stable storage" is MemStorage for every user of the reference storage: C19's tie as well
+    "C06": cluster(["C06"], ["*"], ["term", "up", "dterm", "dvote", "dlog", "dcommit"], component=["RN", "C07", "C19"]),
     "RN": {
         "gens": {
             "quick": [
